@@ -1113,3 +1113,159 @@ Proof.
   intros actors store c tr st' k Hw Hk Hrun Hadm.
   eapply sim_run; try eassumption. apply rel_init. exact Hk.
 Qed.
+
+(* --- system-level theorems *)
+
+(* tightest_governs, part (b): when actor a starts an I/O at t, EVERY limited throttle k of its
+   dict (of that direction) has its own rate bound satisfied at t, simultaneously, whatever the
+   other actors and throttles did in between *)
+Theorem all_bounds_hold : forall actors store c tr a t st',
+  wired actors ->
+  run actors (init_sys store actors c) (tr ++ [Start a t]) = Some st' ->
+  forall k Lk Rk, participates actors k a -> (k < length store)%nat ->
+    0 < Lk -> 0 <= Rk -> fresh_ok Lk Rk (get store k) -> Forall (admin_free k) tr ->
+    exists tr1 g, grun (ginit (get store k) c) (tr1 ++ [S1 a t]) = Some g /\
+      rel actors k st' g /\ g_stat g a = Started t /\
+      forall z, g_t0 g = Some z ->
+        inject_Z (g_snap g a) <= Lk * (t - z) + half (g_r g).
+Proof.
+  intros actors store c tr a t st' Hw Hrun k Lk Rk Hp Hk HL HR Hf Hadm.
+  rewrite run_app in Hrun.
+  destruct (run actors (init_sys store actors c) tr) as [st1|] eqn:E1; [|discriminate].
+  cbn [run] in Hrun. destruct (step actors st1 (Start a t)) as [st2|] eqn:E2; [|discriminate].
+  inversion Hrun; subst st2; clear Hrun.
+  destruct (sys_projects _ _ _ _ _ k Hw Hk E1 Hadm) as [tr1 [g1 [G1 R1]]].
+  destruct (sim_start_in _ _ _ _ _ _ _ R1 E2 Hp) as [g [G R]].
+  exists tr1, g.
+  assert (Hg : grun (ginit (get store k) c) (tr1 ++ [S1 a t]) = Some g).
+  { rewrite grun_app, G1. cbn [grun]. rewrite G. reflexivity. }
+  split; [exact Hg|]. split; [exact R|].
+  assert (Hst : g_stat g a = Started t).
+  { cbn [gstep] in G. destruct (g_stat g1 a); try discriminate.
+    destruct (_ && _); [|discriminate]. inversion G. cbn [g_stat]. apply updf_same. }
+  split; [exact Hst|]. intros z Hz.
+  exact (proj2 (scheduled_within_rate Lk Rk HL HR _ _ _ _ _ _ z Hf Hg Hz)).
+Qed.
+
+(* shared_bound at system level: all actors whose dict contains throttle k share it; the bytes it
+   has accounted are within the rate plus one block per actor *)
+Theorem sys_shared_bound : forall actors store c tr st' k Lk Rk,
+  wired actors -> (k < length store)%nat ->
+  run actors (init_sys store actors c) tr = Some st' ->
+  0 < Lk -> 0 <= Rk -> fresh_ok Lk Rk (get store k) -> Forall (admin_free k) tr ->
+  exists tr1 g, grun (ginit (get store k) c) tr1 = Some g /\ rel actors k st' g /\
+    sum (get (s_store st') k) = (g_T g - g_C g)%Z /\
+    forall z t, g_t0 g = Some z -> s_clock st' <= t ->
+      forall n, Forall (fun e => (actor_of_ev1 e < n)%nat) tr1 ->
+      inject_Z (g_T g) <= Lk * (t - z) + half (g_r g) + inject_Z (sum_last g n).
+Proof.
+  intros actors store c tr st' k Lk Rk Hw Hk Hrun HL HR Hf Hadm.
+  destruct (sys_projects _ _ _ _ _ k Hw Hk Hrun Hadm) as [tr1 [g [G R]]].
+  exists tr1, g. split; [exact G|]. split; [exact R|]. split.
+  - rewrite <- (r_th _ _ _ _ R). exact (proj1 (fold_invariant Lk Rk HL HR _ _ _ _ Hf G)).
+  - intros z t Hz Ht n Hn.
+    apply (shared_bound Lk Rk HL HR _ _ _ _ n z t Hf G Hn Hz).
+    pose proof (r_clock _ _ _ _ R). lra.
+Qed.
+
+(* independent: the state (hence every wake time) of throttle k is untouched by any trace that
+   neither completes an I/O through a dict containing k nor assigns k's limit -- e.g. everything
+   that happens on other connections when k is a per-connection clone *)
+Definition touches (actors : list actor) (k : nat) (e : event) : Prop :=
+  match e with
+  | Done a _ _ => participates actors k a
+  | SetLimit k' _ => k' = k
+  | CloneAll => True
+  | _ => False
+  end.
+
+Theorem independent : forall actors k tr st st',
+  run actors st tr = Some st' ->
+  Forall (fun e => ~ touches actors k e) tr ->
+  get (s_store st') k = get (s_store st) k /\
+  forall now, wake (get (s_store st') k) now = wake (get (s_store st) k) now.
+Proof.
+  intros actors k. induction tr as [|e tr IH]; intros st st' Hrun Hall; cbn [run] in Hrun.
+  - inversion Hrun; subst. split; reflexivity.
+  - destruct (step actors st e) as [st1|] eqn:E; [|discriminate].
+    inversion Hall as [|? ? He Hall']; subst.
+    destruct (IH st1 st' Hrun Hall') as [IH1 _].
+    assert (H1 : get (s_store st1) k = get (s_store st) k).
+    { destruct e as [a t|a t|a t n|k' v|]; cbn [step touches] in *.
+      - destruct (nth_error actors a); [|discriminate].
+        destruct (nth_error (s_stat st) a) as [[| |]|]; try discriminate.
+        destruct (Qle_bool _ _); [|discriminate]. inversion E. reflexivity.
+      - destruct (nth_error (s_stat st) a) as [[| |]|]; try discriminate.
+        destruct (_ && _); [|discriminate]. inversion E. reflexivity.
+      - destruct (nth_error actors a) as [ac|] eqn:Hac; [|discriminate].
+        destruct (nth_error (s_stat st) a) as [[| |]|]; try discriminate.
+        destruct (_ && _); [|discriminate]. inversion E. cbn [s_store].
+        apply stream_append_notin. intros Hin. apply He. exists ac. split; assumption.
+      - inversion E. cbn [s_store]. apply get_upd_other. congruence.
+      - exfalso. apply He. exact Logic.I. }
+    split; [congruence|]. intros now. congruence.
+Qed.
+
+(* off_is_free over traces: limits are only changed by SetLimit, so an actor none of whose
+   throttles OF ITS DIRECTION has a positive limit never waits, in any trace *)
+Lemma get_map_clone : forall store k, get (map clone store) k = clone (get store k).
+Proof.
+  intros store k. unfold get. change dummy with (clone dummy) at 1. apply map_nth.
+Qed.
+
+Lemma limit_preserved : forall actors k tr st st',
+  run actors st tr = Some st' ->
+  Forall (fun e => forall v, e <> SetLimit k v) tr ->
+  limit (get (s_store st') k) = limit (get (s_store st) k).
+Proof.
+  intros actors k. induction tr as [|e tr IH]; intros st st' Hrun Hall; cbn [run] in Hrun.
+  - inversion Hrun; subst. reflexivity.
+  - destruct (step actors st e) as [st1|] eqn:E; [|discriminate].
+    inversion Hall as [|? ? He Hall']; subst.
+    rewrite (IH st1 st' Hrun Hall').
+    destruct e as [a t|a t|a t n|k' v|]; cbn [step] in *.
+    + destruct (nth_error actors a); [|discriminate].
+      destruct (nth_error (s_stat st) a) as [[| |]|]; try discriminate.
+      destruct (Qle_bool _ _); [|discriminate]. inversion E. reflexivity.
+    + destruct (nth_error (s_stat st) a) as [[| |]|]; try discriminate.
+      destruct (_ && _); [|discriminate]. inversion E. reflexivity.
+    + destruct (nth_error actors a) as [ac|] eqn:Hac; [|discriminate].
+      destruct (nth_error (s_stat st) a) as [[| |]|]; try discriminate.
+      destruct (_ && _); [|discriminate]. inversion E. cbn [s_store].
+      clear. unfold stream_append. generalize (s_store st) as store.
+      induction (ids_of ac) as [|i ids IHi]; intros store; cbn [fold_left]; [reflexivity|].
+      rewrite IHi. destruct (Nat.eq_dec k i) as [->|Hne].
+      * destruct (le_lt_dec (length store) i) as [Hlen|Hlen].
+        -- unfold get. rewrite !nth_overflow; [reflexivity|exact Hlen|rewrite length_upd; exact Hlen].
+        -- rewrite get_upd_same; [apply append_limit|exact Hlen].
+      * rewrite get_upd_other; [reflexivity|exact Hne].
+    + inversion E. cbn [s_store]. rewrite get_upd_other; [reflexivity|].
+      intros Ek. subst k'. exact (He v eq_refl).
+    + destruct (forallb is_idle (s_stat st)); [|discriminate]. inversion E. cbn [s_store].
+      rewrite get_map_clone. reflexivity.
+Qed.
+
+Lemma positive_limit_ext : forall th1 th2,
+  limit th1 = limit th2 -> positive_limit th1 = positive_limit th2.
+Proof. intros th1 th2 H. unfold positive_limit. rewrite H. reflexivity. Qed.
+
+Theorem off_is_free : forall actors store c tr a t st' ac,
+  run actors (init_sys store actors c) (tr ++ [Eval a t]) = Some st' ->
+  nth_error actors a = Some ac ->
+  (forall k, In k (ids_of ac) -> positive_limit (get store k) = None) ->
+  (forall k, In k (ids_of ac) -> Forall (fun e => forall v, e <> SetLimit k v) tr) ->
+  nth_error (s_stat st') a = Some (Evaluated t).
+Proof.
+  intros actors store c tr a t st' ac Hrun Hac Hoff Hadm.
+  rewrite run_app in Hrun.
+  destruct (run actors (init_sys store actors c) tr) as [st1|] eqn:E1; [|discriminate].
+  cbn [run] in Hrun. destruct (step actors st1 (Eval a t)) as [st2|] eqn:E2; [|discriminate].
+  inversion Hrun; subst st2; clear Hrun.
+  cbn [step] in E2. rewrite Hac in E2.
+  destruct (nth_error (s_stat st1) a) as [[| |]|] eqn:Hs; try discriminate.
+  destruct (Qle_bool _ _); [|discriminate]. inversion E2; subst st'. cbn [s_stat].
+  rewrite stream_wake_off.
+  - eapply nth_error_upd_same. exact Hs.
+  - intros k Hk. rewrite <- (Hoff k Hk). apply positive_limit_ext.
+    apply (limit_preserved actors k tr _ _ E1 (Hadm k Hk)).
+Qed.
